@@ -277,3 +277,4 @@ MANIFEST = {
     "technique": "value-kind structure (clamp bounds, powers of i) + role/sequence agreement + polynomial identities (AST)",
 }
 MANIFEST["text"] += ' Gram–Schmidt is decided by an abstract interpretation of the routine (basis list, running vector, norms, sort key and order tensors found by definition, not by name): conjugate on the basis vector, subtraction from the running vector, all previous modes, own-norm normalisation, norms restored in the same index order before/with the sort, descending sort on restored intensity or original norms, one order tensor for real and imaginary parts.'
+MANIFEST["text"] += ' R1: redundant earlier slice ties are allowed; the last write before the return must be the tie.'
